@@ -120,6 +120,26 @@ def random_traces(ctx, rng, n, modes):
     return traces, specs
 
 
+def late_reply_traces(ctx, rng, n, modes):
+    """A slow service: the device withholds everything of one stream (the operation times out), and its late OKAY /
+    WRITEs / CLSE arrive while the next operation is running.  Nothing of the late stream may appear in later results."""
+    traces, specs = [], []
+    for i in range(n):
+        ops = []
+        for j in range(rng.randint(2, 4)):
+            k = rng.randint(0, 3)
+            chunks = [(b'<%d.%d.%d>' % (i, j, c) + bytes(rng.randrange(256) for _ in range(rng.randint(0, 30)))).hex() for c in range(k)]
+            ops.append(dict(api=rng.choice(['shell', 'exec_out', 'streaming_shell']), decode=False, cmd='c%d' % j, chunks=chunks, read_timeout_s=1.0))
+        ops[rng.randrange(len(ops) - 1)]['late'] = True
+        spec = dict(seed=ctx.seed * 77 + i, maxdata=4096, rid=rng.choice(['plus', 'random', 'same']), frag=rng.choice(['whole', 'random']),
+                    lid0=rng.choice([None, 2 ** 32 - 2]), ops=ops)
+        spec['stall'] = rng.choice(['raise', 'empty'])     # the transport's own timeout error, or empty reads until AdbTimeoutError
+        rr = scen.run(spec, modes[i % len(modes)], stall=spec['stall'])
+        traces.append(scen.project_events(rr, spec))
+        specs.append((modes[i % len(modes)], spec))
+    return traces, specs
+
+
 def body(ctx):
     rng = random.Random(ctx.seed)
     decode_table(ctx, 6 if ctx.quick else 7)
@@ -140,6 +160,9 @@ def body(ctx):
         return
     # code->spec
     traces, specs = random_traces(ctx, rng, 120 if ctx.quick else 1500, ['sync', 'async'])
+    t2, s2 = late_reply_traces(ctx, rng, 60 if ctx.quick else 600, ['sync', 'async'])
+    traces += t2
+    specs += s2
     ver, r = tlc.validate_traces('TraceEnv', traces)
     ctx.add_tlc(r, 'TraceEnv random shell sessions')
     okn = 0
